@@ -1,0 +1,10 @@
+//go:build verif
+
+package qos
+
+// VerifState returns prefetchCount, prefetchSize, currentCount, currentSize (verification snapshot).
+func (qos *AmqpQos) VerifState() [4]uint64 {
+	qos.Lock()
+	defer qos.Unlock()
+	return [4]uint64{uint64(qos.prefetchCount), uint64(qos.prefetchSize), uint64(qos.currentCount), uint64(qos.currentSize)}
+}
